@@ -312,6 +312,8 @@ func (env *CEnv) eval(e *CExpr) V {
 		return env.field(x, e.Tok)
 	case "call":
 		return env.call(e)
+	case "ghostcall":
+		return env.ghostCall(e)
 	}
 	cfail("cannot evaluate %s", e.Op)
 	return V{}
@@ -670,6 +672,49 @@ func (env *CEnv) call(e *CExpr) V {
 			cs = append(cs, implies(app("bvult", kk, sq.Len), eq(s.Byte(bvadd(off.T, kk)), sq.Byte(kk))))
 		}
 		return vBool(and(cs...))
+	case "vsum", "vterm":
+		// vsum(s, n): the value of the base-128 groups s[0..n), n <= 10: OR of (s[i]&0x7f) << 7i
+		// vterm(s, n): s[0..n-1) have the continuation bit, s[n-1] does not (n in 1..10)
+		s := env.toSeq(arg(0))
+		n := coerce(bv(1, 64), 64, true)
+		if e.Tok == "vsum" {
+			t := bvLit(0, 64)
+			for i := 9; i >= 0; i-- {
+				k := bvLit(uint64(i), 64)
+				g := app("bvshl", zext(app("bvand", s.Byte(k), bvLit(0x7f, 8)), 8, 64), bvLit(uint64(7*i), 64))
+				t = app("bvor", ite(app("bvslt", k, n.T), g, bvLit(0, 64)), t)
+			}
+			return vBV(t, 64, false)
+		}
+		cs := []string{app("bvsle", bvLit(1, 64), n.T), app("bvsle", n.T, bvLit(10, 64))}
+		for i := 0; i < 10; i++ {
+			k := bvLit(uint64(i), 64)
+			cs = append(cs, implies(app("bvslt", bvLit(uint64(i+1), 64), n.T), app("bvuge", s.Byte(k), bvLit(0x80, 8))))
+			cs = append(cs, implies(eq(bvLit(uint64(i+1), 64), n.T), app("bvult", s.Byte(k), bvLit(0x80, 8))))
+		}
+		return vBool(and(cs...))
+	case "abstractseq":
+		// abstractseq(name, len, args...): an unspecified byte sequence that is a function of args
+		if len(e.Args) < 2 || e.Args[0].Op != "ident" {
+			cfail("abstractseq(name, len, args...)")
+		}
+		ln := coerce(bv(1, 64), 64, true)
+		var terms, sorts []string
+		for i := 2; i < len(e.Args); i++ {
+			a := arg(i)
+			var ls []V
+			leaves(a, &ls)
+			for _, l := range ls {
+				if l.K == KFunc || l.K == KSeq {
+					continue
+				}
+				terms = append(terms, l.T)
+				sorts = append(sorts, sortOf(l))
+			}
+		}
+		name := "aseq_" + e.Args[0].Tok
+		env.st.x.declareUF(name, append(sorts, sortBV(64)), sortBV(8))
+		return V{K: KSeq, Seq: &Seq{Len: ln.T, Byte: func(i string) string { return app(name, append(append([]string(nil), terms...), i)...) }}}
 	case "empty":
 		return V{K: KSeq, Seq: &Seq{Len: bvLit(0, 64), Byte: func(string) string { return bvLit(0, 8) }}}
 	case "venc":
@@ -896,4 +941,113 @@ func (env *CEnv) call(e *CExpr) V {
 		cfail("%s: unknown result type %s", e.Tok, fn.Ret.Typ)
 	}
 	return vBV(t, w, signed)
+}
+
+// ghostCall evaluates @Name(args): the result of another function as given by
+// its contract (a pure contract yields an uninterpreted function application,
+// otherwise a fresh value constrained by the callee's ensures clauses). The
+// callee must not modify memory.
+func (env *CEnv) ghostCall(e *CExpr) V {
+	x := env.st.x
+	key := e.Tok
+	if !strings.Contains(key, ".") {
+		// sibling method: same receiver prefix as the function the clause belongs to
+		if i := strings.LastIndex(env.fn, "."); i >= 0 {
+			key = env.fn[:i+1] + key
+		}
+	}
+	con := x.specs.Contracts[key]
+	var tp map[string]types.Type = env.tparam
+	if con == nil {
+		cfail("ghost call: no contract for %s", key)
+	}
+	sig := x.sigOf(key, env.fn)
+	if sig == nil {
+		cfail("ghost call: no signature known for %s", key)
+	}
+	var args []V
+	for _, a := range e.Args {
+		args = append(args, env.eval(a))
+	}
+	nparams := sig.Params().Len()
+	if sig.Recv() != nil {
+		nparams++
+	}
+	if len(args) != nparams {
+		cfail("ghost call %s: %d arguments, want %d", key, len(args), nparams)
+	}
+	// shape untyped nil / constants after the parameter types
+	for i := range args {
+		pi := i
+		if sig.Recv() != nil {
+			pi = i - 1
+		}
+		if pi < 0 || pi >= sig.Params().Len() {
+			continue
+		}
+		pt := sig.Params().At(pi).Type()
+		a := args[i]
+		if a.K == KPtr && a.Typ == types.Typ[types.UntypedNil] {
+			args[i] = zeroOf(pt)
+		} else if a.K == KBV && a.W == 0 {
+			if b, ok := pt.Underlying().(*types.Basic); ok {
+				if w, s, ok2 := basicInfo(b); ok2 {
+					args[i] = coerce(a, w, s)
+				}
+			}
+		}
+	}
+	if len(con.Assigns) > 0 || len(con.Writes) > 0 || con.Appends != nil {
+		cfail("ghost call %s: callee modifies memory", key)
+	}
+	st := env.st
+	var results []V
+	if con.Pure {
+		// memory-dependent pure functions see the memory current for this evaluation
+		saved := map[string]*MemVer{}
+		if env.inOld && env.oldMem != nil {
+			for _, sp := range con.MemDep {
+				if m, ok := env.oldMem[sp]; ok {
+					saved[sp] = st.mem[sp]
+					st.mem[sp] = m
+				}
+			}
+		}
+		results = x.pureResults(st, con, key, args, sig)
+		for sp, m := range saved {
+			st.mem[sp] = m
+		}
+	} else {
+		for i := 0; i < sig.Results().Len(); i++ {
+			results = append(results, st.symbolic(sig.Results().At(i).Type(), "ghost_"+sanitize(key), nil, false))
+		}
+	}
+	vars := map[string]V{}
+	names := x.paramNamesOf(key, sig)
+	for i, n := range names {
+		if i < len(args) {
+			vars[n] = args[i]
+		}
+	}
+	if sig.Recv() != nil && len(args) > 0 {
+		vars["self"] = args[0]
+	}
+	for i, n := range resultNames(sig) {
+		vars[n] = results[i]
+	}
+	if len(results) == 1 {
+		vars["result"] = results[0]
+	}
+	sub := &CEnv{st: st, oldMem: env.oldMem, vars: vars, tparam: tp, fn: key, inOld: env.inOld}
+	for _, en := range con.Ensures {
+		t, err := sub.evalBool(en.Expr)
+		if err != nil {
+			cfail("ghost call %s: %v", key, err)
+		}
+		st.assume(t)
+	}
+	if len(results) != 1 {
+		return vTuple(results...)
+	}
+	return results[0]
 }
